@@ -3,6 +3,7 @@ package soyhtml
 import (
 	"math"
 	"math/rand"
+	"sort"
 	"strings"
 
 	"github.com/robfig/soy/data"
@@ -62,8 +63,13 @@ func funcLength(v []data.Value) data.Value {
 }
 
 func funcKeys(v []data.Value) data.Value {
-	var keys data.List
+	var names []string
 	for k := range v[0].(data.Map) {
+		names = append(names, k)
+	}
+	sort.Strings(names) // (the language leaves the order open; keep it the same from run to run)
+	var keys data.List
+	for _, k := range names {
 		keys = append(keys, data.String(k))
 	}
 	return keys
